@@ -4,17 +4,16 @@ from fractions import Fraction
 import lacert
 
 
-def hyp_of(tt, atom, neg):
+def hyps_of_lit(tt, atom, neg):
+    """mirror of Osmt.EUF.hypsOfLit (same order): the equation of a negated non-Boolean equality, then the Boolean fact"""
     n = tt.nodes[atom]
-    if n.op == "eq" and len(n.args) == 2:
-        if neg:
-            if lacert.is_bool(tt, n.args[0]) or lacert.is_bool(tt, n.args[1]):
-                return None
-            return (n.args[0], n.args[1])
-        return None
+    out = []
+    if n.op == "eq" and len(n.args) == 2 and neg:
+        if not (lacert.is_bool(tt, n.args[0]) or lacert.is_bool(tt, n.args[1])):
+            out.append((n.args[0], n.args[1]))
     if lacert.is_bool(tt, atom):
-        return (atom, "T" if neg else "F")
-    return None
+        out.append((atom, "T" if neg else "F"))
+    return out
 
 
 def cert_for(tt, lits):
@@ -23,17 +22,14 @@ def cert_for(tt, lits):
     fls = next((n.idx for n in tt.nodes if n.op == "fls"), None)
     hyps = []
     for a, neg in lits:
-        h = hyp_of(tt, a, neg)
-        if h is None:
-            continue
-        x, y = h
-        if y == "T":
-            y = tru
-        elif y == "F":
-            y = fls
-        if y is None:
-            return None
-        hyps.append((x, y))
+        for x, y in hyps_of_lit(tt, a, neg):
+            if y == "T":
+                y = tru
+            elif y == "F":
+                y = fls
+            if y is None:
+                return None
+            hyps.append((x, y))
     goals = []   # positive equality literals
     for a, neg in lits:
         n = tt.nodes[a]
@@ -81,6 +77,12 @@ def cert_for(tt, lits):
                         add_edge(i, tru, ("N", a, fls)); changed = True
                     elif find(a) == find(tru) and find(i) != find(fls):
                         add_edge(i, fls, ("N", a, tru)); changed = True
+        # an equality between terms of one class is true (as a Boolean term, e.g. an argument of a function)
+        if tru is not None:
+            for i in univ:
+                n = tt.nodes[i]
+                if n.op == "eq" and len(n.args) == 2 and find(n.args[0]) == find(n.args[1]) and find(i) != find(tru):
+                    add_edge(i, tru, ("E", n.args[0], n.args[1])); changed = True
         sig = {}
         for i in univ:
             n = tt.nodes[i]
@@ -149,6 +151,11 @@ def cert_for(tt, lits):
                 k = emit(["H", str(just[1])])
                 hx, hy = hyps[just[1]]
                 if (hx, hy) != (u, v):
+                    k = emit(["Y", str(k)])
+            elif just[0] == "E":
+                j = prove(just[1], just[2], ts)
+                k = emit(["E", str(j)])            # derives ((= a b), true)
+                if (eu, ev) != (u, v):
                     k = emit(["Y", str(k)])
             elif just[0] == "N":
                 j = prove(just[1], just[2], ts)
